@@ -13,3 +13,6 @@ import Gittuf.Props.C01
 #print axioms Gittuf.World.go_accept_rule_met
 #print axioms Gittuf.World.verifyObject_accept
 #print axioms Gittuf.World.C01_entry_accept
+#print axioms Gittuf.World.ghApprovers_sound
+#print axioms Gittuf.World.ruleMet_count
+#print axioms Gittuf.World.C01_entry_authorized_git
